@@ -124,8 +124,13 @@ func runC20(c *Ctx) {
 	for _, n := range lens {
 		name := mkName(n, 0)
 		regs := [][]byte{name}
-		c.Run("c20.e2e", hx(name), hxList(regs))
+		o := c.Run("c20.e2e", hx(name), hxList(regs))
 		c.Count("e2e:registered")
+		blocks := max(1, (n+31)/32)
+		// 2 type + 49 request key + 32 name key id + 2 length + 32 enc + (1 + 256 + 2 + padded origin) + 16 tag + 96 signature
+		wantSize := 2 + 49 + 32 + 2 + 32 + 1 + 256 + 2 + 32*blocks + 16 + 96
+		c.Direct(o == fmt.Sprintf("ok size=%d served=1", wantSize), "a request for the registered origin was not served, or its size is not determined by the number of 32-byte blocks",
+			map[string]any{"name": hx(name), "len": n, "impl": o, "expected_size": wantSize})
 		// similar names: last byte changed, one byte longer, one shorter, padding-like suffix
 		var sims [][]byte
 		if n > 0 {
@@ -138,9 +143,11 @@ func runC20(c *Ctx) {
 			if len(s) > 0 && s[len(s)-1] == 0 {
 				continue
 			}
-			c.Run("c20.e2e", hx(s), hxList(regs))
+			o := c.Run("c20.e2e", hx(s), hxList(regs))
 			c.Count("e2e:similar-unregistered")
+			c.Direct(strings.HasSuffix(o, "served=0"), "a request for a name that is not registered was served", map[string]any{"name": hx(s), "registered": hx(name), "impl": o})
 		}
-		c.Run("c20.e2e", hx(name), "[]")
+		o = c.Run("c20.e2e", hx(name), "[]")
+		c.Direct(strings.HasSuffix(o, "served=0"), "a request was served by an issuer without registered origins", map[string]any{"name": hx(name), "impl": o})
 	}
 }
